@@ -166,6 +166,8 @@ func (ei *resourceInformer) getCachedObjects() []kemtypes.ObjectAndFilterResult 
 	}
 	ei.eventBufLock.Unlock()
 
+	verifhook.Point("ri.snap.afterReset", ei.Monitor.Metadata.MonitorId, ei.Namespace, ei.Name)
+
 	ei.cacheLock.RLock()
 	res := make([]kemtypes.ObjectAndFilterResult, 0)
 	for _, obj := range ei.cachedObjects {
